@@ -61,4 +61,42 @@ var checkSpecs = map[string]CheckSpec{
 		"thorough": "depth <=3, at most 6 leaves",
 	}, Outside: "deeper or wider trees; a nil top-level error; error types with their own Unwrap() []error other than errors.Join's",
 		Explain: "the yielded sequence (range-over-func form and direct call with an asserting yield function) must be the prefix of the independently recorded left-to-right leaf list cut at the symbolic break position; tree shapes are enumerated by forking, the break position is decided by the solver"},
+	"C02": {ID: "C02", Harnesses: []HarnessSpec{
+		{Pkg: "cors", Entry: "zzH_C02_api", Reach: []string{"method-focus", "header-focus", "origin-focus", "permitted", "refused"}},
+	}, Bounds: map[string]string{
+		"quick":    "three scenarios (sum): method lists (3 menus) x credentialed x a symbolic method token of <=6 bytes x credentials mode; request-header lists (6 menus incl. `*`/Authorization in both orders and cases) x credentialed x every subset of {authorization,x-a,x-b,x-c} x 4 intermediary perturbations x credentials mode x {GET,PUT}; origin lists {*, a.b, *.a.b:*+a.b} x credentialed x both PNA switches x 3 origins x credentials mode x PNA target x {GET,PUT,delete}; both debug modes on every path",
+		"thorough": "5 method menus, 6 perturbations",
+	}, Outside: "header names outside the 4-name universe; methods longer than 6 bytes; configurations outside the menus; browser behaviour outside the transcribed Fetch steps (CORS-preflight fetch step 7, CORS check, extract header list values, method normalisation, non-wildcard request-header names, PNA's Access-Control-Allow-Private-Network check); preflight caching",
+		Explain: "a transcription of the browser's algorithm (zzBrowserVerdict) drives the real middleware with the preflight and the actual request and its verdict is compared with the configuration's documented meaning (zzPermits), in both debug modes"},
+	"C04": {ID: "C04", Harnesses: []HarnessSpec{
+		{Pkg: "cors", Entry: "zzH_C04_validate", Reach: []string{"accepted", "rejected", "three-violations", "bad-status", "bad-max-age", "junk-method", "junk-header"}},
+	}, Bounds: map[string]string{
+		"quick":    "one list drawn in full at a time (0-2 atoms from the first 8 origin atoms / 7 name atoms, every order), plus one fully symbolic 4-byte method or request-header name; the five switches symbolic for the origin and integer focuses; status and max-age symbolic over the full 64-bit range (max-age: symbolic out-of-range values and the pinned values -2,-1,0,86400,86401); the other fields from three backgrounds (valid / one defect each / mixed)",
+		"thorough": "30 origin atoms (one per documented defect), 10 name atoms per list",
+	}, Outside: "origin patterns other than the atoms (their grammar is C13's); lists longer than 2; junk names longer than 4 bytes; rendering of accepted max-age values other than the pinned ones",
+		Explain: "err == nil <=> the oracle (documented prohibitions evaluated on the Config as supplied) finds no violation; NewMiddleware returns a nil middleware with every error; Reconfigure gives the same verdict"},
+	"C05": {ID: "C05", Harnesses: []HarnessSpec{
+		{Pkg: "cors", Entry: "zzH_C04_validate", Reach: []string{"accepted", "rejected", "three-violations"}},
+	}, Bounds: map[string]string{
+		"quick":    "as C04 (same harness): the multiset of (type, Value as supplied, Reason, Type, bounds) yielded by cfgerrors.All must equal the oracle's multiset of violations; every message starts with `cors: `",
+		"thorough": "as C04 thorough",
+	}, Outside: "as C04; which of invalid|prohibited an origin-pattern defect gets (not documented per defect)",
+		Explain: "same harness as C04, opposite direction: valid => accepted, and the reported errors are exactly the documented ones, one per occurrence, none spurious"},
+	"C12": {ID: "C12", Harnesses: []HarnessSpec{
+		{Pkg: "cors", Entry: "zzH_C12_api", Reach: []string{"scribble-config", "scribble-config-result", "scribble-headers", "history"}},
+	}, Bounds: map[string]string{"quick": scenarioBoundsQuick + "; mutation variants: caller scribbles over the Config passed in / over a Config() result / the wrapped handler scribbles over every reachable header slice (up to capacity) / plain history; followed by a battery of 5 probe requests on this and on a second middleware, compared with a pristine reference", "thorough": scenarioBoundsThorough + "; all four variants in every scenario"}, Outside: scenarioOutside + "; mutation through unsafe or reflection",
+		Explain: "behavioural: responses after adversarial in-place writes must equal those of an untouched reference; structural (engine only): exact object identity on the symbolic heap shows that no slice backing array reachable from the middleware or from package-level state is reachable from the caller's Config, a Config() result, or the headers visible to the handler"},
+	"C13": {ID: "C13", Harnesses: []HarnessSpec{
+		{Pkg: "origins", Entry: "zzH_C13_S", Reach: []string{"accepted", "rejected", "wildcard"}},
+		{Pkg: "origins", Entry: "zzH_C13_L", Reach: []string{"accepted", "rejected", "all-maxima", "self-match"}},
+		{Pkg: "origins", Entry: "zzH_C13_D", Reach: []string{"accepted", "rejected"}},
+	}, Bounds: map[string]string{
+		"quick":    "S: every byte string of <=12 bytes through ParsePattern, IDNA/netip stubbed (nondeterministic: accept => documented syntax; optimistic: documented syntax => accept); L: concrete grid of scheme lengths {1,63,64,65,66} x domain lengths {1,63,250..255} x trailing dot x wildcard x label of 63/64 x 6 ports with the real IDNA profile, incl. self-match through Parse+Tree (enumeration, no solver); D: 44 documented examples and one atom per documented defect, concrete",
+		"thorough": "S: <=15 bytes",
+	}, Outside: "which labels IDNA accepts and which IP literals are canonical (delegated to x/net/idna and net/netip; only the concrete atoms of L and D exercise them); strings longer than the S bound other than the L grid; the grey zones the property names (https+IP, `_`, hyphens in positions 3-4) and 251-byte wildcard base plus trailing dot",
+		Explain: "S compares ParsePattern with a reference grammar written from the documentation, for all strings within the bound; rejections must be *UnacceptableOriginPatternError naming the input"},
+	"C15": {ID: "C15", Harnesses: []HarnessSpec{
+		{Pkg: "cors", Entry: "zzH_C15_api", Reach: []string{"twin"}},
+	}, Bounds: map[string]string{"quick": scenarioBoundsQuick + "; twin configurations: reversed lists / rotated with a duplicate / header names upper-cased and normalisable methods respelled / lower-cased plus safelisted methods and response-header names added / every element doubled / reversed+upper-cased (all six in the lists, PNA and dispatch scenarios; one or two per byte-level scenario)", "thorough": scenarioBoundsThorough + "; all six twins in every scenario"}, Outside: scenarioOutside + "; permutations other than reversal and rotation for lists longer than 3",
+		Explain: "the middleware built from the twin configuration must answer the same symbolic request identically (Config() values are deliberately not compared)"},
 }
